@@ -121,7 +121,7 @@ func getArrivalTimeOffset(base time.Time, arrival time.Time) uint16 {
 		return 0x1FFF
 	}
 	offset := base.Sub(arrival).Seconds() * 1024.0
-	if offset > 0x1FFD {
+	if offset >= 0x1FFE {
 		return 0x1FFE
 	}
 
